@@ -394,11 +394,11 @@ func TestVerifE2E(t *testing.T) {
 	go func() {
 		for {
 			time.Sleep(time.Second)
-			if time.Since(time.Unix(0, atomic.LoadInt64(&lastProgress))) > 25*time.Second {
+			if time.Since(time.Unix(0, atomic.LoadInt64(&lastProgress))) > 60*time.Second {
 				buf := make([]byte, 1<<15)
 				n := runtime.Stack(buf, true)
 				replyMu.Lock()
-				enc.Encode(map[string]interface{}{"ev": "e2e-stall", "conn": -1, "sent": -1, "why": "no progress for 25 s (a service request or the frame loop is stuck)",
+				enc.Encode(map[string]interface{}{"ev": "e2e-stall", "conn": -1, "sent": -1, "why": "no progress for 60 s (a service request or the frame loop is stuck)",
 					"log": tailStr(lb.String(), 800) + "\n" + tailStr(string(buf[:n]), 2500)})
 				os.Exit(4)
 			}
@@ -589,7 +589,7 @@ func TestVerifE2E(t *testing.T) {
 			}
 		}
 		for pos < len(stream) {
-			if undrained >= 5 {
+			if undrained >= 10 {
 				// the daemon stopped reading the frame socket: report and give up (nothing more can be learnt)
 				replyMu.Lock()
 				enc.Encode(map[string]interface{}{"ev": "e2e-stall", "conn": ci, "sent": pos, "log": tailStr(lb.String(), 1500)})
